@@ -42,6 +42,9 @@ package env
 //@ spec fun rootOf(e *Env) *Env reads H:env.Env.parent
 //@ axiom rootOf-def: forall e *Env :: e != nil ==> rootOf(e) == ite(e.parent == nil, e, rootOf(e.parent)) && rootOf(e) != nil
 
+// ASSUMPTION (environment class): no typed-nil *Env is ever bound as a value (scripts cannot construct one).
+//@ axiom auto_envNonNil: forall i any :: typeis(i, "*Env") ==> as(i, "*Env") != nil
+
 // lock discipline (C13): nolocks() = this activation holds no scope lock.
 //@ spec fun nolocks() bool = forall x *Env :: lockstate(x) == 0
 // depth(e): distance to the root. ASSUMPTION (acyclic parent chain; parent is only ever set on a fresh scope):
@@ -156,6 +159,8 @@ package env
 //@ props C12
 //@ requires e != nil
 //@ requires [C13] unlocked: nolocks()
+//@ ensures fresh: result == nil || fresh(base(result))
+//@ loop 0 invariant fresh(base(symbols)) && heldmap() == store(old(heldmap()), lockaddr(e), 1)
 
 //@ func (*Env).Delete
 //@ props C12
@@ -237,6 +242,8 @@ package env
 //@ props C12
 //@ requires e != nil
 //@ requires [C13] unlocked: nolocks()
+//@ ensures fresh: result == nil || fresh(base(result))
+//@ loop 0 invariant fresh(base(symbols)) && heldmap() == store(old(heldmap()), lockaddr(e), 1)
 
 // ---------------------------------------------------------------------------
 // whole-scope operations
